@@ -9,7 +9,7 @@
   invocation) are what the theorems talk about; `log_faithful_*` show that these logs are exactly
   the outputs of the operations.
 -/
-import NdnVerif.C20.LemmasStep
+import NdnVerif.C20.LemmasLive
 namespace Ndn.C20
 
 /-- the Interest record as the specification sees it -/
@@ -104,6 +104,73 @@ theorem timeout_not_early (ops : List Op) : ∀ c ∈ (run St.init ops).cbs, c.k
 
 example : (run St.init [.express [⟨8, [97]⟩] false (some 100), .setTime 10100, .timerStart 0,
     .timerRun 0]).cbs = [⟨0, .timeout, 10100⟩] := by decide
+
+/-- **resolves all**: in every history, when Data arrives, EVERY expressed Interest that has not been
+    resolved yet and that the Data satisfies gets its callback invoked by that very arrival, with
+    that Data (so nested names, duplicates and earlier deletions of trie nodes cannot hide a pending
+    Interest from the Data) -/
+theorem data_resolves_all_satisfied (ops : List Op) (nm : Name) (dg : Bytes) (id : Nat) (x : Expr)
+    (hx : (run St.init ops).exprs[id]? = some x)
+    (hpend : ∀ c ∈ (run St.init ops).cbs, c.id ≠ id)
+    (hsat : Spec.satisfies x.toSpec nm dg = true) :
+    ∃ c ∈ (step (run St.init ops) (.data nm dg)).2.callbacks, c.id = id ∧ c.kind = .data nm dg := by
+  obtain ⟨I1, I2⟩ := inv12_run ops St.init Inv1.init Inv2.init
+  obtain ⟨s, hs⟩ : ∃ s : St, s = run St.init ops := ⟨_, rfl⟩
+  rw [← hs] at hx hpend I1 I2 ⊢
+  -- the Interest is pending in some node i
+  rcases I1.cover id (lt_of_getElem? hx) with ⟨c, hc, hid⟩ | ⟨i, e, he, hid⟩
+  · exact absurd hid (hpend c hc)
+  obtain ⟨_, tm, x', _, _, _, _, h6, _, hcbp, hdig, hname⟩ := I1.own i e he
+  rw [hid, hx] at h6; cases h6
+  obtain ⟨ni, hni, hdesc⟩ := I2.att i e he
+  have hnin : ni.name = x.node := by simpa [nameAt, hni] using hname
+  -- the node name is a prefix of the Data name
+  simp only [Spec.satisfies, Expr.toSpec, Bool.and_eq_true] at hsat
+  obtain ⟨hs1, hs2⟩ := hsat
+  have hpre : ∃ r : Name, ni.name ++ r = nm := by
+    rw [hnin]
+    cases hb : x.cbp with
+    | true => simp only [hb, if_true] at hs1; exact (isPre_iff _ _).mp hs1
+    | false => simp [hb] at hs1; exact ⟨[], by simp [of_decide_eq_true hs1]⟩
+  obtain ⟨r, hr⟩ := hpre
+  have hwalk := att_on_walk I1.wf hni hdesc r
+  rw [hr] at hwalk
+  -- the entry is satisfied according to the engine's test
+  have hdep := I1.wf.dep_eq i ni hni
+  have hsb : satisfiedBy ni.dep nm.length dg e = true := by
+    simp only [satisfiedBy]
+    have h1 : (decide (ni.dep < nm.length) && !e.cbp) = false := by
+      cases hb : x.cbp with
+      | true => rw [← hcbp, hb]; simp
+      | false =>
+        simp [hb] at hs1
+        rw [hdep, hnin, of_decide_eq_true hs1]; simp
+    rw [h1]
+    simp only [Bool.false_eq_true, if_false]
+    rw [← hdig]
+    cases hd : x.dig with
+    | none => rfl
+    | some d => simp [hd] at hs2; simp [hs2]
+  -- so the loop removes it and reports it
+  obtain ⟨_, _, a3, _, _, _, _⟩ :=
+    dataWalk_spec nm.length dg (depOf s.pit (prefixMatch s.pit nm) + 1) s.pit (prefixMatch s.pit nm) []
+      I1.wf I1.uniqH List.nodup_nil (fun a ha => by cases ha)
+  have hin : e ∈ (dataWalk nm.length dg (depOf s.pit (prefixMatch s.pit nm) + 1) s.pit
+      (prefixMatch s.pit nm) []).2 := by
+    rcases a3 i e he with h' | h'
+    · have := dataWalk_clears nm.length dg _ s.pit _ [] i ni e hwalk hni h'
+      rw [hsb] at this; cases this
+    · exact h'
+  refine ⟨⟨e.id, .data nm dg, s.now⟩, ?_, hid, rfl⟩
+  show _ ∈ Out.callbacks (step s (.data nm dg)).2
+  have : (step s (.data nm dg)).2 = .cbs ((dataWalk nm.length dg (depOf s.pit (prefixMatch s.pit nm) + 1) s.pit
+      (prefixMatch s.pit nm) []).2.map fun p => (⟨p.id, .data nm dg, s.now⟩ : Cb)) := rfl
+  rw [this]
+  exact List.mem_map.mpr ⟨e, hin, rfl⟩
+
+example : (step (run St.init [.express [⟨8, [97]⟩, ⟨8, [98]⟩] false (some 100), .express [⟨8, [97]⟩] true none,
+    .express [⟨8, [97]⟩] false none, .data [⟨8, [99]⟩] [1], .nack [⟨8, [97]⟩]])
+    (.data [⟨8, [97]⟩, ⟨8, [98]⟩] [1])).2.callbacks.map (·.id) = [0] := by decide
 
 /-! ### replies -/
 
